@@ -74,10 +74,11 @@ def func(arity, ret, absorbed=("args", "kwargs"), coq=None, star=False):
 class Op:
     """container method of a state attribute: self.<attr>.<meth>(args) -> <class>_<attr>_<meth>"""
 
-    def __init__(self, args, ret, mode):
+    def __init__(self, args, ret, mode, pre=()):
         self.args = args          # list of argument types
         self.ret = ret            # result type or None
         self.mode = mode          # 'rd' pure read | 'wr' mutation | 'wr_get' mutation with a result (may raise)
+        self.pre = pre            # constructor arguments of the class the model-side definition needs (e.g. maxlen)
 
 
 # ------------------------------------------------------------------------------------------------------------------
@@ -98,6 +99,7 @@ class NodeTr:
         self.assumptions = []
         self.stateful = False
         self.inlining = []
+        self.tails = []           # inside a loop body: how the body ends (the reassigned locals are handed on)
 
     # ---- utilities ------------------------------------------------------------------------------------------------
     def fresh(self, base="v"):
@@ -139,8 +141,31 @@ class NodeTr:
 
     def ex_Name(self, e, env, binds):
         if e.id in env:
+            term, ty = env[e.id]
+            if isinstance(ty, tuple) and ty[0] == "alias":      # a name for the container self.<owner>[key]
+                owner, tk = term
+                return (self.bind(binds, "rd (%s %s)" % (self.opname(owner, "getitem"), tk), False), ty[1])
+            if isinstance(ty, tuple) and ty[0] == "iter":
+                self.err("iterator %s used as a value" % e.id, e)
             return env[e.id]
         self.err("unknown name %s" % e.id, e)
+
+    def alias_call(self, alias, meth, args, env, binds, node):
+        (owner, tk), ty = alias
+        op = self.sc.get("ops", {}).get((owner, "item_" + meth))
+        if op is None:
+            self.err("method %s of an element of self.%s" % (meth, owner), node)
+        if len(args) != len(op.args):
+            self.err("argument count of %s" % meth, node)
+        terms = [tk]
+        for a, want in zip(args, op.args):
+            t1, ty1 = self.ex(a, env, binds)
+            if ty1 != want:
+                self.err("element of self.%s: %s(<%s>), expected %s" % (owner, meth, ty1, want), node)
+            terms.append(t1)
+        self.stateful = True
+        self.bind(binds, "wr (%s %s)" % (self.opname(owner, "item_" + meth), " ".join(terms)), True, "u")
+        return ("tt", "unit")
 
     def ex_Constant(self, e, env, binds):
         if e.value is None:
@@ -222,9 +247,20 @@ class NodeTr:
                 if i > 0 and any(b.effect for b in sub):
                     self.err("operand with an effect in short-circuit position: %s" % ast.unparse(v), v)
                 binds.extend(sub)
+            absorbing = "false" if op == "&&" else "true"
+            if absorbing in parts[:1]:
+                return absorbing
+            parts = [q for q in parts if q not in ("true", "false")] if absorbing not in parts else parts
+            if not parts:
+                return "true" if op == "&&" else "false"
+            if len(parts) == 1:
+                return parts[0]
             return "(" + (" %s " % op).join(parts) + ")"
         if isinstance(e, ast.UnaryOp) and isinstance(e.op, ast.Not):
-            return "(negb %s)" % self.cond(e.operand, env, binds)
+            c = self.cond(e.operand, env, binds)
+            if c in ("true", "false"):
+                return "false" if c == "true" else "true"
+            return "(negb %s)" % c
         t, ty = self.ex(e, env, binds)
         return self.truthy(t, ty, e)
 
@@ -251,7 +287,9 @@ class NodeTr:
                 res = "(is_no_default %s)" % t
             elif bsrc == "None":
                 name = self.self_attr(a)
-                if name is not None and self.attr(name, a).kind == "param" and self.attr(name, a).ty == "outside":
+                if name is not None and self.attr(name, a).kind == "optfunc":
+                    res = "(is_none_fn %s)" % (self.attr(name, a).coq or name)
+                elif name is not None and self.attr(name, a).kind == "param" and self.attr(name, a).ty == "outside":
                     # an argument that the model fixes to None (e.g. partition's timeout)
                     self.assume("self.%s is None (the model does not cover it)" % name)
                     res = "true"
@@ -261,6 +299,10 @@ class NodeTr:
                         res = "(is_none %s)" % t
                     else:
                         self.err("`is None` on a %s" % (ty,), e)
+            elif bsrc == "list" and isinstance(a, ast.Call) and isinstance(a.func, ast.Name) and a.func.id == "type" \
+                    and len(a.args) == 1 and isinstance(a.args[0], ast.Name) and env.get(a.args[0].id, (0, 0))[1] == "aw":
+                self.assume("type(self._emit(..)) is list")
+                res = "true"
             elif self.self_attr(b) is not None and self.attr(self.self_attr(b), b).kind == "upstream0" \
                     and isinstance(a, ast.Name) and a.id == "who":
                 # `who is self.lossless`: the first upstream
@@ -306,7 +348,10 @@ class NodeTr:
                 op = ops[(name, "contains")]
                 if [tya] != op.args:
                     self.err("`in self.%s` with a %s" % (name, tya), node)
-                return self.bind(binds, "rd (%s %s)" % (self.opname(name, "contains"), ta), False)
+                call = " ".join([self.opname(name, "contains")] + list(op.pre) + [ta])
+                if op.mode == "pure":
+                    return "(%s)" % call
+                return self.bind(binds, "rd (%s)" % call, False)
         self.err("membership test %s" % ast.unparse(node), node)
 
     def ex_BinOp(self, e, env, binds):
@@ -323,6 +368,8 @@ class NodeTr:
     def ex_Subscript(self, e, env, binds):
         name = self.self_attr(e.value)
         if name is not None and self.attr(name, e).kind == "field":
+            if (name, "touch") in self.sc.get("ops", {}):        # defaultdict: reading a missing key creates it
+                self.container_call(name, "touch", [e.slice], env, binds, e)
             return self.container_call(name, "getitem", [e.slice], env, binds, e)
         tv, tyv = self.ex(e.value, env, binds)
         ti, tyi = self.ex(e.slice, env, binds)
@@ -383,6 +430,12 @@ class NodeTr:
                 if ty == "md" or (isinstance(ty, tuple) and ty[0] == "list"):
                     return (t, ty)           # a copy
                 self.err("list() of a %s" % (ty,), e)
+            if f.id == "chain" and len(e.args) == 1 and not e.keywords:
+                # itertools.chain(x) of one argument: an iterator over x (a non-iterable raises before any effect)
+                t, ty = self.ex(e.args[0], env, binds)
+                if ty != "val":
+                    self.err("chain() of a %s" % (ty,), e)
+                return (self.bind(binds, "lift (items %s)" % t, True), ("iter", "val"))
             if f.id == "callable" and len(e.args) == 1:
                 name = self.self_attr(e.args[0])
                 if name is not None and self.attr(name, e).kind in ("func", "optfunc"):
@@ -412,6 +465,9 @@ class NodeTr:
             self.err("call of self.%s" % name, e)
         # ---- self.<attr>.<method>(...) / <alias>.<method>(...) --------------------------------------------------
         owner = self.self_attr(f.value)
+        if owner == "upstreams" and f.attr == "index" and len(e.args) == 1 and isinstance(e.args[0], ast.Name) \
+                and e.args[0].id == "who" and not e.keywords:
+            return (env["who"][0], "nat")          # the position of the calling upstream = the port of the model
         if owner is not None:
             return self.container_call(owner, f.attr, e.args, env, binds, e, e.keywords)
         if isinstance(f.value, ast.Name) and f.value.id in env and isinstance(env[f.value.id][1], tuple) \
@@ -426,6 +482,9 @@ class NodeTr:
             self.assume("isinstance(metadata, list) is True (Stream._emit always passes a list)")
             return ("true", "bool")
         name = self.self_attr(a)
+        if name is not None and name in self.sc.get("isinstance_const", {}) and self.sc["isinstance_const"][name][0] == bsrc:
+            self.assume(self.sc["isinstance_const"][name][2])
+            return (self.sc["isinstance_const"][name][1], "bool")
         if name is not None:
             at = self.attr(name, e)
             if at.kind == "union" and bsrc == at.variants["test"]:
@@ -483,6 +542,9 @@ class NodeTr:
         if len(pos) != a.arity:
             self.err("self.%s called with %d arguments, the model's function takes %d" % (name, len(pos), a.arity), e)
         coqf = a.coq or name
+        if a.kind == "optfunc":            # an optional function argument; calling None raises
+            v = self.bind(binds, "call (opt_callf %s %s)" % (coqf, " ".join(pos)), True)
+            return (v, a.ret[1])
         if a.ret[0] == "total":
             return ("(%s %s)" % (coqf, " ".join(pos)), a.ret[1])
         v = self.bind(binds, "call (%s %s)" % (coqf, " ".join(pos)), True)
@@ -513,7 +575,10 @@ class NodeTr:
             if ty != want:
                 self.err("self.%s.%s: argument is a %s, expected %s" % (owner, meth, ty, want), node)
             terms.append(t)
+        terms = list(op.pre) + terms
         call = "%s%s" % (self.opname(owner, meth), "".join(" " + t for t in terms))
+        if op.mode == "pure":
+            return ("(%s)" % call, op.ret)
         if op.mode == "rd":
             return (self.bind(binds, "rd (%s)" % call, False), op.ret)
         self.stateful = True
@@ -535,6 +600,8 @@ class NodeTr:
     def go(self, stmts, env, ind):
         """translate the statement list (which already includes the continuation of the enclosing blocks)"""
         if not stmts:
+            if self.tails:
+                return [ind + self.tails[-1](env)]
             return [ind + "ret tt"]
         s, rest = stmts[0], stmts[1:]
         m = getattr(self, "st_" + type(s).__name__, None)
@@ -561,7 +628,7 @@ class NodeTr:
         if isinstance(v, ast.Call) and self.self_attr(v.func) in self.sc.get("helpers", {}):
             return self.inline_helper(v, rest, env, ind, s)
         if isinstance(v, ast.Call) and isinstance(v.func, ast.Attribute) and isinstance(v.func.value, ast.Name) \
-                and v.func.value.id in env and env[v.func.value.id][1] == "aw" and v.func.attr in ("extend", "append"):
+                and v.func.value.id in env and env[v.func.value.id][1] in ("aw", "nil") and v.func.attr in ("extend", "append"):
             # L.extend(self._emit(..)) on the list of awaitables that is returned: only the argument matters
             binds = []
             t, ty = self.ex(v.args[0], env, binds)
@@ -576,13 +643,122 @@ class NodeTr:
 
     def st_Return(self, s, rest, env, ind):
         out = [self.src(s, ind)]
+        if self.tails:
+            self.err("return inside a loop", s)
         if s.value is not None:
             binds = []
             t, ty = self.ex(s.value, env, binds)
-            if ty not in ("aw", "nil", "unit") and not self.method_pure:
+            if ty not in ("aw", "nil", "unit") and t != "VNone":
                 self.err("return of a %s" % (ty,), s)
             out += self.emit_binds(binds, ind)
         return out + [ind + "ret tt"]
+
+    def st_Delete(self, s, rest, env, ind):
+        """del self.<list>[k:]"""
+        if len(s.targets) != 1:
+            self.err("del of several targets", s)
+        tg = s.targets[0]
+        owner = self.self_attr(tg.value) if isinstance(tg, ast.Subscript) else None
+        if owner is None or not isinstance(tg.slice, ast.Slice) or tg.slice.lower is None or tg.slice.upper is not None \
+                or tg.slice.step is not None:
+            self.err("del statement %s" % ast.unparse(s), s)
+        binds = []
+        self.container_call(owner, "delfrom", [tg.slice.lower], env, binds, s)
+        return [self.src(s, ind)] + self.emit_binds(binds, ind) + self.go(rest, env, ind)
+
+    def assigned_names(self, stmts):
+        res = []
+        for st in stmts:
+            for n in ast.walk(st):
+                if isinstance(n, ast.Name) and isinstance(n.ctx, ast.Store) and n.id not in res:
+                    res.append(n.id)
+        return res
+
+    def tup(self, terms):
+        if not terms:
+            return "tt"
+        if len(terms) == 1:
+            return terms[0]
+        return "(%s)" % ", ".join(terms)
+
+    def st_For(self, s, rest, env, ind):
+        if s.orelse:
+            self.err("for ... else", s)
+        out = [self.src(s, ind)]
+        # idiom: for upstream in self.upstreams: upstream._remove_downstream(self)   -- the node detaches itself
+        if self.self_attr(s.iter) == "upstreams" and isinstance(s.target, ast.Name) and len(s.body) == 1 \
+                and ast.unparse(s.body[0]) == "%s._remove_downstream(self)" % s.target.id:
+            if not self.sc.get("detach"):
+                self.err("the node removes itself from its upstreams; the model of this class has no such transition", s)
+            self.stateful = True
+            out.append("%s(*   %s *)" % (ind, cq(ast.unparse(s.body[0]))))
+            out.append("%sdo _ <- wr %s_detach ;;" % (ind, self.cls))
+            return out + self.go(rest, env, ind)
+        # for v in <local iterator>: the rest of the iterator is consumed
+        if isinstance(s.iter, ast.Name) and s.iter.id in env and isinstance(env[s.iter.id][1], tuple) \
+                and env[s.iter.id][1][0] == "iter" and isinstance(s.target, ast.Name):
+            lst, ity = env[s.iter.id]
+            elem = ity[1]
+            assigned = self.assigned_names(s.body)
+            carried = [n for n in assigned if n in env and n != s.target.id and env[n][1] not in ("aw", "nil", "unit")]
+            var = self.local(s.target.id)
+            benv = dict(env)
+            benv[s.target.id] = (var, elem)
+            for n in carried:
+                benv[n] = (self.local(n), env[n][1])
+            tys = {n: env[n][1] for n in carried}
+
+            def tail(e, carried=carried, tys=tys):
+                for n in carried:
+                    if e[n][1] != tys[n]:
+                        self.err("the loop changes the type of %s" % n, s)
+                return "ret %s" % self.tup([e[n][0] for n in carried])
+            self.tails.append(tail)
+            body = self.go(list(s.body), benv, ind + "    ")
+            self.tails.pop()
+            st = self.fresh("st")
+            pat = self.tup([self.local(n) for n in carried])
+            out.append("%sdo %s <- for_ %s %s (fun %s %s_in =>" % (ind, st, lst, self.tup([env[n][0] for n in carried]), var, st))
+            out.append("%s    let %s%s := %s_in in" % (ind, "'" if len(carried) > 1 else "", pat if carried else "_", st))
+            out += body
+            out.append("%s  ) ;;" % ind)
+            env = dict(env)
+            if carried:
+                out.append("%slet %s%s := %s in" % (ind, "'" if len(carried) > 1 else "", pat, st))
+            for n in carried:
+                env[n] = (self.local(n), tys[n])
+            env[s.iter.id] = ("[]", ity)
+            for n in assigned:
+                if n not in carried and n != s.target.id and n in env and env[n][1] not in ("aw", "nil", "unit"):
+                    del env[n]
+            return out + self.go(rest, env, ind)
+        self.err("for loop over %s" % ast.unparse(s.iter), s)
+
+    def st_While(self, s, rest, env, ind):
+        """while self.<container>: body   -- fuel: one more than the length of the container at entry"""
+        if s.orelse:
+            self.err("while ... else", s)
+        name = self.self_attr(s.test)
+        if name is None or self.attr(name, s).kind != "field" or not isinstance(self.attr(name, s).ty, tuple):
+            self.err("while loop on %s: only `while self.<container>` is supported" % ast.unparse(s.test), s)
+        out = [self.src(s, ind)]
+        binds = []
+        c = self.cond(s.test, env, binds)
+        condm = "(" + " ".join("do %s <- %s ;;" % (b.var, b.term) for b in binds) + " ret %s)" % c
+        assigned = self.assigned_names(s.body)
+        for n in assigned:
+            if n in env and env[n][1] not in ("aw", "nil", "unit"):
+                self.err("the while loop reassigns the local %s" % n, s)
+        self.tails.append(lambda e: "ret tt")
+        body = self.go(list(s.body), dict(env), ind + "    ")
+        self.tails.pop()
+        fuel = self.fresh("fuel")
+        out.append("%sdo %s <- rd (fun s_ => S (length (%s s_))) ;;" % (ind, fuel, self.opname(name)))
+        out.append("%sdo _ <- while_ %s %s (" % (ind, fuel, condm))
+        out += body
+        out.append("%s  ) ;;" % ind)
+        env = {k: v for k, v in env.items() if k not in assigned or v[1] in ("aw", "nil", "unit")}
+        return out + self.go(rest, env, ind)
 
     def st_Assign(self, s, rest, env, ind):
         if len(s.targets) != 1:
@@ -649,6 +825,9 @@ class NodeTr:
                 env[tgt.id] = ("tt", ty)
                 return []
             c = self.local(tgt.id)
+            if term == "VNone":
+                env[tgt.id] = (term, ty)
+                return []
             if c == term:
                 env[tgt.id] = (term, ty)
                 return []
@@ -676,7 +855,7 @@ class NodeTr:
                 self.err("item assignment to self.%s" % owner, node)
             binds = []
             tk, tyk = self.ex(tgt.slice, env, binds)
-            if ty == "nil" and isinstance(op.args[1], tuple):
+            if ty == "nil" and (isinstance(op.args[1], tuple) or op.args[1] == "md"):
                 ty = op.args[1]
             if [tyk, ty] != op.args:
                 self.err("self.%s[<%s>] = <%s>" % (owner, tyk, ty), node)
@@ -754,6 +933,8 @@ class NodeTr:
         if s.finalbody or len(s.handlers) != 1:
             self.err("try statement shape", s)
         h = s.handlers[0]
+        if h.type is not None and ast.unparse(h.type) == "StopIteration":
+            return self.try_next(s, h, rest, env, ind)
         if h.type is None or ast.unparse(h.type) != "Exception":
             self.err("handler for %s" % (ast.unparse(h.type) if h.type else "everything"), s)
         body = [ast.unparse(x) for x in h.body]
@@ -761,6 +942,30 @@ class NodeTr:
             self.err("exception handler is not `logger.exception(e); raise` but %s" % "; ".join(body), s)
         out = ["%s(* try: ... except Exception as e: logger.exception(e); raise   (the exception propagates) *)" % ind]
         return out + self.go(list(s.body) + list(s.orelse) + rest, env, ind)
+
+    def try_next(self, s, h, rest, env, ind):
+        """try: v = next(it) except StopIteration: <handler>"""
+        b = s.body
+        ok = len(b) == 1 and isinstance(b[0], ast.Assign) and len(b[0].targets) == 1 and isinstance(b[0].targets[0], ast.Name) \
+            and isinstance(b[0].value, ast.Call) and isinstance(b[0].value.func, ast.Name) and b[0].value.func.id == "next" \
+            and len(b[0].value.args) == 1 and isinstance(b[0].value.args[0], ast.Name) and not b[0].value.keywords
+        if not ok or h.name is not None:
+            self.err("try/except StopIteration around something else than `v = next(it)`", s)
+        it = b[0].value.args[0].id
+        if it not in env or not (isinstance(env[it][1], tuple) and env[it][1][0] == "iter"):
+            self.err("next() of %s which is not an iterator" % it, s)
+        lst, ity = env[it]
+        hd, tl = self.fresh("h"), self.fresh("t")
+        out = ["%s(* try: %s except StopIteration: ... *)" % (ind, cq(ast.unparse(b[0]))),
+               "%smatch %s with" % (ind, lst), "%s| [] =>" % ind, "%s  (* except StopIteration: *)" % ind]
+        out += self.go(list(h.body) + rest, env, ind + "  ")
+        out.append("%s| %s :: %s =>" % (ind, hd, tl))
+        env2 = dict(env)
+        env2[b[0].targets[0].id] = (hd, ity[1])
+        env2[it] = (tl, ity)
+        out += self.go(list(s.orelse) + rest, env2, ind + "  ")
+        out.append("%send" % ind)
+        return out
 
     # ---- helpers (other methods of the class called from update): inlined -------------------------------------------
     def inline_helper(self, call, rest, env, ind, node):
@@ -797,45 +1002,46 @@ class NodeTr:
         return res
 
     def helper_call(self, name, e, env, binds):
-        """pure helper used as an expression: a chain of `if c: return e` ending in `return e`"""
+        """helper used as an expression: `if c: return e` ... `return e`; inlined as a monadic term"""
         spec = self.sc["helpers"][name]
         if spec != "expr":
             self.err("helper %s is used as an expression" % name, e)
         fn = find_func(self.classdef, name)
         params = [a.arg for a in fn.args.args][1:]
-        if len(e.args) != len(params) or e.keywords:
+        if len(e.args) != len(params) or e.keywords or fn.decorator_list:
             self.err("call of helper %s" % name, e)
         env2 = {}
         for p, a in zip(params, e.args):
             env2[p] = self.ex(a, env, binds)
-        term, ty = self.pure_body([b for b in fn.body if not (isinstance(b, ast.Expr) and isinstance(b.value, ast.Constant))],
-                                  env2, fn)
-        return ("(%s)" % term, ty)
+        body = [b for b in fn.body if not (isinstance(b, ast.Expr) and isinstance(b.value, ast.Constant))]
+        term, ty = self.mbody(body, env2, fn)
+        v = self.bind(binds, "(* %s *) %s" % (cq(ast.unparse(e)), term), True)
+        return (v, ty)
 
-    def pure_body(self, stmts, env, fn):
+    def mbody(self, stmts, env, fn):
         if not stmts:
             self.err("helper %s falls off its end" % fn.name, fn)
         s = stmts[0]
         if isinstance(s, ast.Return) and s.value is not None:
             binds = []
             t, ty = self.ex(s.value, env, binds)
-            if binds:
-                self.err("helper %s: return value is not a pure expression" % fn.name, s)
-            return t, ty
-        if isinstance(s, ast.If) and len(s.body) == 1 and isinstance(s.body[0], ast.Return):
+            return "(" + " ".join("do %s <- %s ;;" % (b.var, b.term) for b in binds) + " ret %s)" % t, ty
+        if isinstance(s, ast.If):
             binds = []
             c = self.cond(s.test, env, binds)
-            if binds:
-                self.err("helper %s: test is not pure" % fn.name, s)
-            t1, ty1 = self.pure_body(list(s.body), self.narrow(s.test, env, True), fn)
-            t2, ty2 = self.pure_body(list(s.orelse) + stmts[1:], self.narrow(s.test, env, False), fn)
+            t1 = t2 = None
+            if c != "false":
+                t1, ty1 = self.mbody(list(s.body) + stmts[1:], self.narrow(s.test, env, True), fn)
+            if c != "true":
+                t2, ty2 = self.mbody(list(s.orelse) + stmts[1:], self.narrow(s.test, env, False), fn)
+            pre = " ".join("do %s <- %s ;;" % (b.var, b.term) for b in binds)
             if c == "true":
-                return t1, ty1
+                return "(%s %s)" % (pre, t1), ty1
             if c == "false":
-                return t2, ty2
+                return "(%s %s)" % (pre, t2), ty2
             if ty1 != ty2:
                 self.err("helper %s returns a %s or a %s" % (fn.name, ty1, ty2), s)
-            return "if %s then %s else %s" % (c, t1, t2), ty1
+            return "(%s if %s then %s else %s)" % (pre, c, t1, t2), ty1
         self.err("helper %s: statement %s" % (fn.name, ast.unparse(s).split("\n")[0]), s)
 
     # ---- a whole method ---------------------------------------------------------------------------------------------
@@ -889,19 +1095,19 @@ def gen_class(core, cls, schema):
     out = [HEADER] + lines + [""]
     load = schema.get("load")
     start = "(%s s)" % load if load else "s"
+    store = schema["store"]
     out += ["Definition gen_run_%s%s (s : nstate) (p : nat) (x : val) (m : md) : result :=" % (cls, ps),
-            "  finish %s %s (gen_body_%s %s x p m %s)." % (schema["store"].replace("{s}", "s"), "true" if stateful else "false",
-                                                          cls, pnames, start),
+            "  finish %s %s (gen_body_%s %s x p m %s)." % (store, "true" if stateful else "false", cls, pnames, start),
             "Definition gen_update_%s%s (s : nstate) (p : nat) (x : val) (m : md) : option (list action) :=" % (cls, ps),
             "  to_option (gen_run_%s %s s p x m)." % (cls, pnames),
             "Definition gen_is_coroutine_%s : bool := %s." % (cls, "true" if coroutine else "false"), ""]
-    for extra, defname, args in schema.get("extra_methods", []):
+    for extra, args, callargs in schema.get("extra_methods", []):
         tr2 = NodeTr(core, cls, schema)
         l2, st2, _ = tr2.translate(extra, "gen_body_%s_%s" % (cls, extra), args)
         out += l2 + [""]
         out += ["Definition gen_%s_%s%s (s : nstate) : result :=" % (extra, cls, ps),
-                "  finish %s %s (gen_body_%s_%s %s %s)." % (schema["store"].replace("{s}", "s"), "true" if st2 else "false",
-                                                          cls, extra, pnames, start), ""]
+                "  finish %s %s (gen_body_%s_%s %s %s %s)." % (store, "true" if st2 else "false", cls, extra, pnames,
+                                                             " ".join(callargs), start), ""]
         tr.assumptions += [a for a in tr2.assumptions if a not in tr.assumptions]
     out.append("(* assumptions made by the translator:")
     for a in tr.assumptions or ["none"]:
@@ -944,7 +1150,60 @@ SCHEMAS["pluck"] = dict(
     attrs={"pick": Attr("union", coq="pick", variants={"test": "list", "is": "pick_is_list",
                                                         "yes": ("pick_list", ("list", "nat")), "no": ("pick_one", "nat")})})
 
-ORDER = ["accumulate", "map", "filter", "starmap", "pluck", "union", "Stream"]
+SCHEMAS["flatten"] = dict(
+    params=[], state="nstate", store="store_id", attrs={})
+
+# partition: _buffer / _metadata_buffer are defaultdict(list); the model keeps both per key in st_keyed.
+# timeout is outside the model (None); key is an optional function (None -> everything under the key None).
+SCHEMAS["partition"] = dict(
+    params=[("n", "nat"), ("key", "option (val -> val)")], state="nstate", store="store_id", coroutine=True,
+    attrs={"n": param("nat"), "_timeout": param("outside"),
+           "_key": Attr("optfunc", arity=1, ret=("total", "val"), coq="key", absorbed=()),
+           "_buffer": field(("dict", VALS)), "_metadata_buffer": field(("dict", "md"))},
+    helpers={"_get_key": "expr", "_flush": "stmt"},
+    ops={("_buffer", "alias"): Op(["val"], VALS, "wr"), ("_buffer", "touch"): Op(["val"], None, "wr"),
+         ("_buffer", "getitem"): Op(["val"], VALS, "rd"), ("_buffer", "setitem"): Op(["val", VALS], None, "wr"),
+         ("_buffer", "item_append"): Op(["val"], None, "wr"),
+         ("_metadata_buffer", "alias"): Op(["val"], "md", "wr"), ("_metadata_buffer", "touch"): Op(["val"], None, "wr"),
+         ("_metadata_buffer", "getitem"): Op(["val"], "md", "rd"),
+         ("_metadata_buffer", "setitem"): Op(["val", "md"], None, "wr"),
+         ("_metadata_buffer", "item_extend"): Op(["md"], None, "wr")})
+
+# sliding_window: two deque(maxlen=n)
+SCHEMAS["sliding_window"] = dict(
+    params=[("n", "nat"), ("partial", "bool")], state="nstate", store="store_id",
+    attrs={"n": param("nat"), "partial": param("bool"), "_buffer": field(VALS), "metadata_buffer": field(MDS)},
+    ops={("_buffer", "append"): Op(["val"], None, "wr", pre=["n"]),
+         ("metadata_buffer", "append"): Op(["md"], None, "wr", pre=["n"]),
+         ("metadata_buffer", "popleft"): Op([], "md", "wr_get")})
+
+# unique: the model covers the history kept as a list (hashable=False); see the assumption printed
+SCHEMAS["unique"] = dict(
+    params=[("maxsize", "option nat"), ("key", "val -> val")], state="nstate", store="store_id",
+    attrs={"maxsize": param("optnat"), "key": func(1, ("total", "val"), absorbed=()),
+           "seen": Attr("field", ty=VALS)},
+    isinstance_const={"seen": ("list", "true", "isinstance(self.seen, list) is True: the model covers the history kept as "
+                               "a list (hashable=False); the dict / LRU branch of unique.update is NOT translated")},
+    ops={("seen", "contains"): Op(["val"], "bool", "rd"), ("seen", "remove"): Op(["val"], None, "wr"),
+         ("seen", "insert"): Op(["lit_0", "val"], None, "wr"), ("seen", "delfrom"): Op(["optnat"], None, "wr")})
+
+# collect: python keeps two flat deques; the python-level state keeps the metadata in the chunks it was extended by
+SCHEMAS["collect"] = dict(
+    params=[], state="collect_st", store="(collect_store s)", load="collect_load",
+    attrs={"cache": field(VALS), "metadata_cache": field("md")},
+    ops={("cache", "append"): Op(["val"], None, "wr"), ("metadata_cache", "extend"): Op(["md"], None, "wr"),
+         ("cache", "clear"): Op([], None, "wr"), ("metadata_cache", "clear"): Op([], None, "wr")},
+    extra_methods=[("flush", [("_", "unused_", "val")], ["VNone"])])
+
+# slice: self.state counts the elements seen; _check_end removes the node from its upstreams
+SCHEMAS["slice"] = dict(
+    params=[("star", "nat"), ("stop", "option nat"), ("step", "nat")], state="nstate", store="store_id", detach=True,
+    attrs={"star": param("nat"), "end": param("optnat", coq="stop"), "step": param("nat"), "state": field("nat"),
+           "upstreams": Attr("upstreams")},
+    helpers={"_check_end": "stmt"})
+
+ORDER = ["accumulate", "map", "filter", "starmap", "pluck", "union", "Stream", "flatten", "partition", "sliding_window",
+         "unique", "collect", "slice"]
 
 
 def generate_all(core):
